@@ -57,12 +57,82 @@ def canon_trace(t):
     return ",".join(out)
 
 
+def merge_tool_section(run, seen, full, S, quick):
+    """cdns-merge writes a named output too: its system calls (strace) must touch the final name only by the closing rename, and
+    killing it before any of its output-related calls must leave the earlier file under that name intact"""
+    import os, re, shutil, subprocess, tempfile
+    if not shutil.which("strace"):
+        run.count("merge tool: strace unavailable - section skipped"); return
+    tools = vlib.build_cli_tools()
+    env = dict(os.environ); env.update(vlib.SAN_ENV)
+    ins = []
+    for (name, sess, pre), ans in zip(S, full):
+        if ans and ans.startswith("I") and name.endswith("/n"):
+            for fname, content in files_of(ans).items():
+                if not fname.endswith(".part") and content != "-" and pre.get(fname) != content and len(ins) < 3:
+                    ins.append(bytes.fromhex(content))
+    if len(ins) < 2:
+        return
+    tmp = tempfile.mkdtemp(prefix="c15m_", dir=vlib.CACHE)
+    try:
+        names = []
+        for i, d in enumerate(ins):
+            n = os.path.join(tmp, "in%d" % i); open(n, "wb").write(d); names.append(n)
+        out = os.path.join(tmp, "out.cdns")
+        old = ins[0]                                   # a complete earlier output under the final name
+        def run_merge(extra):
+            open(out, "wb").write(old)
+            for leftover in (out + ".part",):
+                if os.path.exists(leftover):
+                    os.unlink(leftover)
+            tr = os.path.join(tmp, "trace")
+            p = subprocess.run(["strace", "-f", "-o", tr] + extra + [tools["cdns-merge"], "-o", out] + names, stdout=subprocess.PIPE, stderr=subprocess.PIPE,
+                               text=True, errors="replace", env=env, timeout=120)
+            return p, (open(tr).read() if os.path.exists(tr) else ""), (open(out, "rb").read() if os.path.exists(out) else None)
+        calls = "openat,open,creat,rename,renameat,renameat2,unlink,unlinkat,truncate,write,writev,pwrite64"
+        p, trace, merged = run_merge(["-y", "-e", "trace=" + calls])
+        run.case(("merge-tool", "trace"), True); run.count("merge tool: traced run")
+        case = "cdns-merge -o out.cdns in0 in1 ..  (out.cdns exists beforehand; inputs: %s)" % " ".join(d.hex()[:1500] for d in ins)
+        if p.returncode != 0 or merged is None or merged == old:
+            run.spec_fail.append(("merge-tool:baseline", case, {"exit": p.returncode, "stderr": p.stderr[-400:]})); return
+        touched = []
+        for l in trace.splitlines():
+            m = re.search(r'\b(openat|open|creat|truncate|unlink|unlinkat)\((?:AT_FDCWD(?:<[^>]*>)?, )?"([^"]*)"(.*)', l)
+            if m and m.group(2) == out:
+                if m.group(1) in ("open", "openat") and not re.search(r"O_WRONLY|O_RDWR|O_TRUNC|O_CREAT", m.group(3)):
+                    continue
+                touched.append(l.strip()[:200])
+            m = re.search(r'\b(write|writev|pwrite64)\(\d+<([^>]*)>', l)
+            if m and m.group(2) == out:
+                touched.append(l.strip()[:200])
+        if touched and "merge-tool:final-name-touched" not in seen:
+            seen.add("merge-tool:final-name-touched")
+            run.spec_fail.append(("merge-tool:final-name-touched", case, {"why": "the final name is opened for writing / truncated / written before the closing rename",
+                                                                       "system calls": touched[:6]}))
+        n_calls = len([l for l in trace.splitlines() if re.search(r"\b(openat|rename|write|writev)\(", l) and out in l])
+        # kill the tool immediately before its k-th call that names the output (open of the .part file, its writes, the rename)
+        for k in range(1, n_calls + 1):
+            p, _, found = run_merge(["-P", out, "-P", out + ".part", "-e", "trace=openat,rename,write,writev", "-e",
+                                     "inject=openat,rename,write,writev:signal=SIGKILL:when=%d" % k])
+            run.case(("merge-tool", "kill", k), True); run.count("merge tool: killed before its k-th output-related call")
+            if found not in (old, merged):
+                sig = "merge-tool:partial-final-file"
+                if sig not in seen:
+                    seen.add(sig)
+                    run.spec_fail.append((sig, case + " ;; killed before output-related call %d" % k,
+                                          {"k": k, "found bytes": None if found is None else len(found), "earlier file bytes": len(old), "complete merge bytes": len(merged),
+                                           "why": "the file under the final name is neither the earlier one nor the complete merge"}))
+    finally:
+        shutil.rmtree(tmp, ignore_errors=True)
+
+
 def check(run):
     run.lean()
     rng = run.rng
     quick = run.tier == "quick"
     run.rule = ("scenarios (plain/gzip/xz; single output, several rotations incl. empty ones, rotation onto an existing name, destruction "
-                "with/without buffered data%s) x EVERY crash point k = 1..N (N measured per scenario); distinct by (scenario, k)") % ("" if quick else ", 280 random scenarios")
+                "with/without buffered data%s) x EVERY crash point k = 1..N and EVERY fault point k x {refused once, refused from then on, cut short} "
+                "(N measured per scenario); distinct by (scenario, k[, fault kind])") % ("" if quick else ", 280 random scenarios")
     run.trusted += ["harness/os.cpp (write/writev/rename interposed; fclose not interposable - 'closed before rename' is read from /proc/self/fd at rename time)",
                     "Driver/Fs.lean", "rename(2) atomicity, no power loss (process death only)"]
     seen = set()
@@ -141,8 +211,61 @@ def check(run):
                     run.spec_fail.append((sig, "os crash %d %s %s" % (k, pre_toks(pre), sess),
                                           {"k": k, "file": fname, "found bytes": len(content) // 2, "complete bytes": len(final.get(fname, "")) // 2,
                                            "why": "a file under a final name is neither the pre-existing one nor the complete output"}))
+    # (3) the same guarantee when the OS refuses data instead of the process dying: for every k the k-th write/writev (on
+    # whichever output) fails once / from then on / is cut short; whatever is then found under a final name must be the
+    # pre-existing file or a complete valid output (decompresses completely, passes the strict validator)
+    flines, fmetas = [], []
+    for (name, sess, pre), ans in zip(S, full):
+        if ans is None or not ans.startswith("I"):
+            continue
+        n = int(dict(kv.split("=") for kv in ans.split(" | ")[2].split())["N"])
+        for k in range(1, n + 1):
+            for kind, persist in (("any-enospc", 0), ("any-enospc", 1), ("any-short", 0)):
+                flines.append("os fault %d %s %d %s %s" % (k, kind, persist, pre_toks(pre), sess)); fmetas.append((name, sess, pre, k, kind, persist))
+    fans = run_os(flines)
+    vlines, vmeta = [], []
+    fired_total = 0
+    for (name, sess, pre, k, kind, persist), line, ans in zip(fmetas, flines, fans):
+        if ans is None or not ans.startswith("I"):
+            sig = "fault:harness:" + name
+            if sig not in seen:
+                seen.add(sig); run.spec_fail.append((sig, line, {"implementation": (ans or "")[:300]}))
+            continue
+        fired = int(dict(kv.split("=") for kv in ans.split(" | ")[2].split()).get("fired", 0))
+        run.case((name, "fault", k, kind, persist), fired > 0)
+        if not fired:
+            continue
+        fired_total += fired
+        run.count("fault/" + name.split("/")[0])
+        comp = name.split("/")[1]
+        for fname, content in files_of(ans).items():
+            if fname.endswith(".part") or content == "-" or pre.get(fname) == content:
+                continue
+            data, err = E.decompress(content, comp)
+            if data is None:
+                sig = "fault:partial-final-file:" + name.split("/")[0]
+                if sig not in seen:
+                    seen.add(sig)
+                    run.spec_fail.append((sig, line, {"k": k, "kind": kind, "persistent": persist, "file": fname, "found bytes": len(content) // 2,
+                                                      "why": "after a refused write a file under a final name is not a complete %s stream: %s" % (comp, err)}))
+            elif data:
+                vlines.append("cdns " + data.hex()); vmeta.append((name, line, fname, k, kind, persist))
+    if run.driver_ok and vlines:
+        uniq = sorted(set(vlines))
+        verdict = dict(zip(uniq, G.run_driver(uniq)))
+        for (name, line, fname, k, kind, persist), vl in zip(vmeta, vlines):
+            lg = verdict.get(vl)
+            if lg is None or lg.startswith("S invalid"):
+                sig = "fault:partial-final-file:" + name.split("/")[0]
+                if sig not in seen:
+                    seen.add(sig)
+                    run.spec_fail.append((sig, line, {"k": k, "kind": kind, "persistent": persist, "file": fname, "found bytes": (len(vl) - 5) // 2,
+                                                      "why": "after a refused write a file under a final name is not a complete valid C-DNS file",
+                                                      "strict parser/validator": (lg or "")[:300]}))
+    run.extra["faults_fired"] = fired_total
+    merge_tool_section(run, seen, full, S, quick)
     run.exhaustive = True
-    run.extra["exhaustive_over"] = "crash points k = 1..N of every scenario"
+    run.extra["exhaustive_over"] = "crash points k = 1..N and fault points k = 1..N x {refused once, refused from then on, cut short} of every scenario"
 
 
 def replay(run, data):
